@@ -49,7 +49,9 @@ def run_case(kind, case):
             final["checks"] = res
     finally:
         sh(["git", "-C", "/repo", "worktree", "remove", "--force", wt])
-        sh(["bash", "-c", "rm -rf /verif/.work/coq.*sw_%s_%s* /verif/.work/evidence.*sw_%s_%s*" % (kind[0], case, kind[0], case)])
+        tag = "sw_%s_%s" % (kind[0], case)
+        sh(["bash", "-c", "rm -rf /verif/.work/coq.*%s /verif/.work/evidence.*%s /verif/.work/coq.*%s /verif/.work/evidence.*%s" % (
+            tag, tag, tag.replace("-", "_"), tag.replace("-", "_"))])
     meta["final"] = final
     json.dump(meta, open(d + "/meta.json", "w"), indent=1)
     return kind, case, final
